@@ -25,13 +25,19 @@ def record_cases(rep, tag, per_logic, orders, extra_jobs=()):
     stats = {'proofs': 0, 'invalid': 0, 'models': 0}
     for r in P.read_records(outs):
         stats['proofs'] += 1
+        if r['outcome'] == 'raise' and r['raised'] != 'Watchdog':
+            # the proof itself is search-independent (C09); a raise here comes from building the models of an
+            # invalid tableau: no countermodel was delivered
+            cases.append({'id': r['id'], 'logic': r['logic'], 'argstr': r['argstr'], 'arg': r['arg'], 'rules': r.get('rules', []),
+                          'models': [], 'nmodels_expected': -1, 'raised': r['raised'].split(':')[0]})
+            continue
         if r['outcome'] != 'invalid' or 'models' not in r:
             continue
         stats['invalid'] += 1
         stats['models'] += len(r['models'])
         cases.append({'id': r['id'] + f"/o{r.get('order', 0)}", 'logic': r['logic'], 'argstr': r['argstr'], 'arg': r['arg'],
                       'rules': r.get('rules', []), 'models': r['models'],
-                      'nmodels_expected': r['final']['state']['nopen']})
+                      'nmodels_expected': r['final']['state']['nopen'], 'raised': ''})
     return cases, stats
 
 
